@@ -66,8 +66,14 @@ def compile_once(repo, src, workdir, cfg, pert):
     if pert.get('stale_outputs'):
         for name in ('zone_infos.h', 'zone_infos.cpp', 'zone_infos.py', 'zone_policies.h', 'zone_policies.py',
                      'zone_registry.cpp', 'zones.txt', 'tzdb.json', '__init__.py'):
+            # an older output is typically LONGER or SHORTER than the new one (other scope, other year range,
+            # other release); plant both kinds, so that a writer that fails to truncate, appends, or skips
+            # existing files leaves a trace
+            big = (pert['shim_seed'] + len(name)) % 2 == 0
             with open(os.path.join(out, name), 'w') as f:
                 f.write('// stale output of an earlier compilation (%d)\n' % pert['shim_seed'])
+                if big:
+                    f.write('// stale line\n' * 120000)   # ~1.7 MB, longer than anything the compiler emits
     env = {k: v for k, v in os.environ.items() if not k.startswith(('PYTHON', 'LC_', 'LANG'))}
     env.update({'PYTHONHASHSEED': str(pert['hashseed']), 'TZ': pert['tz'], 'LANG': pert['lang'],
                 'LC_ALL': pert['lang'], 'PYTHONDONTWRITEBYTECODE': '1'})
